@@ -133,11 +133,16 @@ def vclass(v):
     return v["oracle"] + "".join("|%s=%s" % (k, json.dumps(facts[k])) for k in sorted(facts))
 
 
+KNOWN = []
+
+
 def load_known():
     p = os.path.join(VERIF, "known_findings.json")
     if not os.path.exists(p):
         return []
-    return json.load(open(p)).get("findings", [])
+    global KNOWN
+    KNOWN = json.load(open(p)).get("findings", [])
+    return KNOWN
 
 
 def match_known(v, known):
@@ -169,6 +174,7 @@ class Agg:
         self.sim_ms = 0
         self.wall_ms = 0
         self.configs = {}
+        self.discarded = 0
 
     def add(self, r, prop):
         self.runs += 1
@@ -193,7 +199,17 @@ class Agg:
             self.panics[key] = self.panics.get(key, 0) + 1
         if r.get("infra"):
             self.infra.append((r["run"], r["infra"]))
-        for v in r.get("violations") or []:
+        # a run that hit a known finding (of any property) is not used for any later conclusion
+        vs = r.get("violations") or []
+        cut = None
+        for i, v in enumerate(vs):
+            if match_known(v, KNOWN):
+                cut = i
+                break
+        for i, v in enumerate(vs):
+            if cut is not None and i > cut and not match_known(v, KNOWN):
+                self.discarded += 1
+                continue
             self.violations.append((r, v))
 
 
@@ -450,11 +466,11 @@ def cmd_check(a):
     budget = float(os.environ.get("VERIF_BUDGET_S", cfg[tier]))
     t0 = time.time()
     log("vcheck property=%s tier=%s VERIF_SEED=%d world=%s budget=%ss workers=%d" % (prop, tier, seed, cfg["world"], budget, NWORK))
+    known = load_known()
     b = Build()
     rc = 0
     try:
         log("build %.1fs tree=%s" % (b.build_s, b.tree_hash))
-        known = load_known()
         nviol = 0
         known_hit = {}
         printed = []
@@ -526,6 +542,8 @@ def cmd_check(a):
             log("inconclusive=%s" % json.dumps(agg.inconc, sort_keys=True))
         if agg.panics:
             log("engine panics observed (counted, judged only where a property says so): %s" % json.dumps(agg.panics))
+        if agg.discarded:
+            log("note: %d violations discarded because they followed a known finding in the same run" % agg.discarded)
         if other:
             log("note: violations of other properties seen in this world (reported by their own checks): %s" % json.dumps(other, sort_keys=True))
         if tier == "thorough":
@@ -590,6 +608,7 @@ def cmd_probe(a):
 
 def cmd_survey(a):
     """run a batch with no focus property and list every violation class seen"""
+    load_known()
     b = Build()
     try:
         agg = explore(b, a.property or "", a.world, "survey", a.seed, a.budget, 4000)
@@ -599,7 +618,8 @@ def cmd_survey(a):
             classes.setdefault(key, []).append((r, v))
         for key in sorted(classes):
             r, v = classes[key][0]
-            log("%6d  %s\n        e.g. run %d: %s" % (len(classes[key]), key, r["run"], v["message"][:700]))
+            kf = match_known(v, KNOWN)
+            log("%6d  %s%s\n        e.g. run %d: %s" % (len(classes[key]), key, "   [known: %s]" % kf["id"] if kf else "", r["run"], v["message"][:700]))
         log("runs=%d judged=%s" % (agg.runs, json.dumps(agg.judged, sort_keys=True)))
         log("probes=%s" % json.dumps(agg.probes, sort_keys=True))
         log("faults=%s inconclusive=%s panics=%s" % (json.dumps(agg.faults, sort_keys=True), json.dumps(agg.inconc), json.dumps(agg.panics)))
